@@ -223,7 +223,9 @@ func hunkKnown(wl, gl []string, i, j int) string {
 					return "C01-F7-comment-after-stmt-with-multiline-block-comment"
 				}
 			}
-			if best[0] >= 0 && best[0] < best[1] && indentOf(wl[best[1]]) > indentOf(wl[best[0]]) {
+			// (a continuation line is indented deeper than the element's first line, or - the tail of a raw
+			// string - less; a closing brace or parenthesis at the first line's indentation is not one)
+			if best[0] >= 0 && best[0] < best[1] && indentOf(wl[best[1]]) != indentOf(wl[best[0]]) {
 				return "C01-F8-comment-after-element-ending-on-continuation-line"
 			}
 		}
